@@ -91,15 +91,27 @@ pub fn manager_min_lifetime_us() -> u64 {
             .unwrap_or(0);
         CURRENT.store(
             match threads {
-                0..=200 => 400,
-                201..=400 => 1_500,
-                401..=700 => 5_000,
-                _ => 20_000,
+                0..=64 => 400,
+                65..=200 => 1_000,
+                201..=400 => 3_000,
+                401..=800 => 10_000,
+                _ => 40_000,
             },
             Relaxed,
         );
     }
     CURRENT.load(Relaxed)
+}
+
+/// Block until a manager created at `born` has lived long enough to be released (see
+/// `manager_min_lifetime_us`). Sleeps instead of spinning: a busy loop on a loaded machine
+/// delays the very thread start-up it is waiting for.
+pub fn await_manager_lifetime(born: std::time::Instant) {
+    let min = std::time::Duration::from_micros(manager_min_lifetime_us());
+    let age = born.elapsed();
+    if age < min {
+        std::thread::sleep(min - age);
+    }
 }
 
 /// set by the C14 capacity sweep (and its replays): enables the sub-sweeps that create many
